@@ -923,3 +923,74 @@ PROPS["C20"] = dict(
         ("cbor-tags", dict(cmp=cmp_c20_untyped, nontrivial=lambda p, i, m: True, shrink=False, what="foreign CBOR (marshalled values with tags kept, changed, inserted; random items) into interface{} vs dec_run |> unmarshal_top GAny")),
     ],
 )
+
+
+# ---------------------------------------------------------------------------
+# C08 maporder: impl = "ok <hex> stable=<0|1>" | merr | panic ; model = "ok <hex>" | merr
+# ---------------------------------------------------------------------------
+
+def cmp_c08(payload, impl, model):
+    if impl.startswith("panic"):
+        return viol("marshal panicked")
+    if model.startswith("ok"):
+        if not impl.startswith("ok"):
+            return viol("a representable map value failed to marshal")
+        if not impl.endswith("stable=1"):
+            return viol("marshalling equal values (maps rebuilt by other insertion orders, repeated runs) gave different bytes")
+        if impl.split(" stable=")[0] != model:
+            return viol("key order / bytes differ from the configured order: impl %s model %s" % (impl[:100], model[:100]))
+        return None
+    if impl.startswith("ok"):
+        return viol("model: not representable, implementation: %s" % impl[:80])
+    return None
+
+
+PROPS["C08"] = dict(
+    coq="Properties_C08",
+    level_text="Proved in Coq on the marshaller model: the output depends on a map only through its set of entries (any permutation of the entry list gives the same tokens), map keys are emitted strictly sorted in the configured order (bytewise for default/strings, length-then-bytewise for rfc7049), both comparators are strict total orders so the sorted arrangement is unique (any correct sort must produce it), and struct fields follow the atlas's field order. Tied to the code by marshalling each value 12 times, 9 of them after rebuilding every map with a different insertion order (and bucket churn), in all three modes via atlas default and per-type morphism, for both formats; bytes must all agree with the model's.",
+    level_note="Go's randomised map iteration is exercised, not controlled; the theorem quantifies over all permutations. sort.Sort is assumed to return a sorted permutation (uniqueness proved). Autogenerated struct orders are checked in C19's suite. Trusted as in trusted_base. No axioms.",
+    rule="(format, atlas, map-valued type, value); non-trivial = some map with at least 2 entries; distinct by payload",
+    trusted_base=_OBJ_TB,
+    assumptions=["map keys stringify injectively (generated key transforms are injective)"],
+    suites=[("maporder", dict(cmp=cmp_c08, nontrivial=lambda p, i, m: m.startswith("ok") and p.count("((") >= 1, shrink=False,
+                              what="refmt.MarshalAtlased x12 per value, maps rebuilt by random insertion orders; bytes identical and equal to Marshal.marshal_top |> encoder"))],
+)
+
+
+# ---------------------------------------------------------------------------
+# C06 untrusted: impl = "<class> alloc=<n> len=<n>" ; model = "<class> req=<n>"
+# ---------------------------------------------------------------------------
+CAP = 33554432
+
+
+def cmp_c06(payload, impl, model):
+    f = impl.split()
+    kv = dict(_KV.findall(impl))
+    if f[0] == "panic":
+        return viol("panic while decoding untrusted bytes")
+    if f[0] == "hang":
+        return viol("decoding did not terminate within the time budget (input of %s bytes)" % kv.get("len"))
+    n = int(kv.get("len", "0"))
+    alloc = int(kv.get("alloc", "0"))
+    bound = 2 * CAP + 16384 * n + (4 << 20)
+    if alloc > bound:
+        return viol("allocated %d bytes for an input of %d bytes (bound: 2 x 32 MiB + 16 KiB per input byte + 4 MiB)" % (alloc, n))
+    mkv = dict(_KV.findall(model))
+    req = int(mkv.get("req", "0"))
+    if req > 2 * CAP + 8 * n + 64:
+        return mism("the decoder model requests %d bytes for %d input bytes: above the proved bound" % (req, n))
+    if f[0] != model.split()[0]:
+        return mism("result class %s, model %s" % (f[0], model.split()[0]))
+    return None
+
+
+PROPS["C06"] = dict(
+    coq="Properties_C06",
+    level_text="Proved in Coq on the decoder and unmarshaller models: every partial Go operation in the decode path is an explicit outcome and none is reachable (decoders: total, no panic outcome, steps bounded by 2*len+2 / len+2: C04/C05 totality theorems; unmarshaller: no panic constructor, every recursion consumes tokens); the CBOR decoder model's requested allocation is bounded by the per-item cap plus a linear function of the input. Tied to refmt.UnmarshalAtlased (untyped and typed targets) and to both pumps by running adversarial inputs (length headers up to 2^64-1 on every major type, chunk floods, nesting to 20000, oversized numbers) plus random, mutated and structure-biased inputs, under a watchdog, measuring runtime.MemStats.TotalAlloc against the bound.",
+    level_note="partial w.r.t. the real allocator: the model accounts for requested sizes; the harness measures TotalAlloc with a generous per-byte slack (measured ~5 KiB of heap per nesting level for untyped JSON). Trusted as in trusted_base. No axioms.",
+    rule="(format, target type or pump, bytes); non-trivial = input of at least 3 bytes; distinct by payload",
+    trusted_base=_OBJ_TB,
+    assumptions=["time budget 10 s per input as hang detector"],
+    suites=[("untrusted", dict(cmp=cmp_c06, nontrivial=lambda p, i, m: len(p.split("|")[1].strip()) >= 6, shrink=False, timeout=7200,
+                               what="refmt.UnmarshalAtlased into untyped/typed targets and TokenPump into the other format on adversarial and random bytes: class (ok/err/panic/hang) vs the model; measured allocation vs bound"))],
+)
